@@ -27,6 +27,31 @@ def wf (t : T) : Bool := uniq t && t.noSingle && t.kids.length != 1
 def noSingleAfter (before after : T) : Bool :=
   after.noSingle && after.kids.length != 1 && (before.kids.length ≤ 2 || after.kids.length != 2)
 
+/-- hypotheses on the input tree without any condition on the root: unique tip names, no
+    single-child inner node (the root may be a tip) -/
+def wfR (t : T) : Bool := uniq t && t.noSingle
+
+/-- What the root may look like afterwards.  A tip root that is kept stays the (tip) root; when
+    it is removed, or when the root had ≥ 3 neighbours, the new root has ≥ 3 neighbours / is not
+    of degree 2; a rooted tree may keep a root of degree 2; never a new tip root. -/
+def rootAfterOK (before : T) (names : List String) (rev : Bool) (after : T) : Bool :=
+  if before.kids.length == 1 then
+    if (kept before names rev).contains before.name then after.kids.length == 1 && after.name == before.name
+    else decide (3 ≤ after.kids.length)
+  else after.kids.length != 1 && (before.kids.length ≤ 2 || after.kids.length != 2)
+
+/-- clause 4 for every input shape -/
+def noSingleAfterR (before : T) (names : List String) (rev : Bool) (after : T) : Bool :=
+  after.noSingle && rootAfterOK before names rev after
+
+/-- the rendering by which the split lists are sorted tells the given sides apart (true for
+    every name set free of look-alikes such as a name containing ", ") -/
+def sidesInj (l : List (List String)) : Bool :=
+  l.all fun a => l.all fun b => toString a != toString b || a == b
+
+/-- tip names the rendering of a side can delimit: non-empty and free of ',' -/
+def goodNames (t : T) : Bool := t.tipNames.all fun x => x != "" && !x.toList.contains ','
+
 /-- 1. the tip set is exactly the requested one -/
 def tipsOK (before : T) (names : List String) (rev : Bool) (after : T) : Bool :=
   sortS after.tipNames == sortS (kept before names rev)
@@ -81,5 +106,23 @@ def indexOK (after : T) (existing : List String) (tipIdx : List Int) (nb : Int) 
   existing == sortS after.tipNames &&
   tipIdx == (List.range existing.length).map (fun (i : Nat) => Int.ofNat i) &&
   nb == (after.tipNames.length : Int)
+
+/- ## the whole command (`pruneAll`) -/
+
+/-- every input tree satisfies the hypotheses of the theorems for the names the flags select -/
+def AllGood (f : PruneFlags) : List T → List (List String) → Prop
+  | [], _ => True
+  | ref :: rest, samples =>
+    wfR ref = true ∧ 3 ≤ (kept ref (f.names ref (samples.headD [])) f.revert).length ∧
+      AllGood f rest samples.tail
+
+/-- every output is the induced subtree of the corresponding input -/
+def OutputsInduced (f : PruneFlags) : List T → List (List String) → List T → Prop
+  | [], _, outs => outs = []
+  | _ :: _, _, [] => False
+  | ref :: rest, samples, t' :: outs =>
+    t'.tipNames.Perm (kept ref (f.names ref (samples.headD [])) f.revert) ∧
+      splitsInduced (kept ref (f.names ref (samples.headD [])) f.revert) ref t' ∧ wfR t' = true ∧
+      OutputsInduced f rest samples.tail outs
 
 end Gotree.C06
